@@ -35,9 +35,11 @@
 (***************************************************************************)
 EXTENDS PhaseAcc, TraceLib
 
-VARIABLES l, dead
+VARIABLES l, dead,
+          fog     \* the roll-over latch is unknown: set_phase was called since it was last taken or reset (whether
+                  \* positioning the phase also clears the latch is stated nowhere)
 
-tvars == <<paVars, l, dead>>
+tvars == <<paVars, l, dead, fog>>
 
 e == Rec[l]
 
@@ -75,27 +77,31 @@ IncTags(shift) ==
        IN IF \E i \in lower..upper : i % M = e.il /\ (i >= M) = e.big THEN {} ELSE {<<"C11", "increment">>}
 
 ---------------------------------------------------------------------------
-TMeta == e.op = "meta" /\ UNCHANGED <<paVars, dead>> /\ l' = l + 1
+TMeta == e.op = "meta" /\ UNCHANGED <<paVars, dead, fog>> /\ l' = l + 1
 
 TNew ==
   /\ e.op = "new" /\ e.w = AccBits /\ e.i = IdxBits
   /\ acc' = 0 /\ inc' = 0 /\ rolled' = FALSE /\ lastAcc' = 0
-  /\ l' = l + 1 /\ dead' = {}
+  /\ l' = l + 1 /\ dead' = {} /\ fog' = FALSE
 
-TTick == e.op = "t" /\ PA_Tick /\ Advance(ReadTags("tick-advance"))
+TTick == e.op = "t" /\ PA_Tick /\ fog' = fog /\ Advance(ReadTags("tick-advance"))
 
-TReset == e.op = "r" /\ PA_Reset /\ Advance(ReadTags("reset"))
+TReset == e.op = "r" /\ PA_Reset /\ fog' = FALSE /\ Advance(ReadTags("reset"))
 
 TTake ==
   /\ e.op = "take"
   /\ PA_TakeRolled
+  /\ fog' = FALSE
+  \* (in the fog a carry seen by the specification since the set_phase still has to be reported)
   /\ Advance(ReadTags("take-disturbs-phase")
-             \cup (IF e.res # rolled THEN {<<"C11", "rollover-latch">>, <<"C02", "rollover-latch">>} ELSE {}))
+             \cup (IF (~fog /\ e.res # rolled) \/ (fog /\ rolled /\ ~e.res)
+                     THEN {<<"C11", "rollover-latch">>, <<"C02", "rollover-latch">>} ELSE {}))
 
 \* a negative or NaN argument leaves every documented range: nothing is reported for the rest of the run
 TSetInc(op, shift) ==
   /\ e.op = op
   /\ PA_SetInc(e.il + (IF e.big THEN M ELSE 0))
+  /\ fog' = fog
   /\ IF e.kind = "any"
        THEN l' = l + 1 /\ dead' = dead \cup {"ALL"}
        ELSE Advance(ReadTags("setfreq-phase-jump") \cup IncTags(shift))
@@ -107,6 +113,7 @@ InWrap == LET lo2 == e.wlo - SetPhaseTol  hi2 == e.whi + SetPhaseTol
 TSetPhase ==
   /\ e.op = "sp"
   /\ PA_SetPhase(IF e.a >= 0 /\ e.a < M THEN e.a ELSE acc)
+  /\ fog' = TRUE
   /\ IF e.kind # "num"    \* a NaN or infinite phase is outside the documented range ("any finite value")
        THEN l' = l + 1 /\ dead' = dead \cup {"ALL"}
        ELSE Advance(   (IF e.a < 0 \/ e.a >= M THEN {<<"C11", "set-phase-range">>} ELSE {})
@@ -118,12 +125,12 @@ TSetPhase ==
 
 TPanic ==
   /\ e.op = "panic"
-  /\ UNCHANGED paVars
+  /\ UNCHANGED <<paVars, fog>>
   /\ Advance({<<"C17", "panic">>, <<"C11", "panic">>})
 
 TNext == l <= NRec /\ (TMeta \/ TNew \/ TTick \/ TReset \/ TTake \/ TSetInc("sf", 128) \/ TSetInc("sper", 64)
                        \/ TSetPhase \/ TPanic)
-TInit == PA_Init /\ l = 1 /\ dead = {} /\ FlagInit
+TInit == PA_Init /\ l = 1 /\ dead = {} /\ fog = FALSE /\ FlagInit
 TSpec == TInit /\ [][TNext]_tvars
 TInv == acc \in 0..(M - 1)
 =============================================================================
